@@ -70,7 +70,7 @@ def _replay_race(witness, ctx):
 PROPS["C09"] = dict(
     level_text="Lean theorems over the transcription of score.go: Less is exactly the order of an Int rank embedding of the documented chain "
                "(hence irreflexive, transitive, total), Negate is an involution and order-reversing, IncrementMateDistance is strictly monotone, "
-               "Max/Min agree - for all scores, not a sample. The transcription is tied to the code by an exhaustive-in-mates differential run on every check.",
+               "Max/Min agree - for all VALID scores (Spec.Score.Valid: a mate score has Mate != 0, as the field's documentation says), not a sample. The transcription is tied to the code by an exhaustive-in-mates differential run on every check.",
     level_note="Trusted: Lean kernel (axioms propext, Classical.choice, Quot.sound at most), the hand transcription Morlock.Model.Score "
                "(checked against the implementation on ~5.5e5 ops per run), float32 order embedding; NaN excluded; int8 edge cases stated explicitly.",
     technique="Lean 4 proof (order embedding + omega) over a hand-written model, differential correspondence impl/model/spec",
@@ -80,7 +80,8 @@ PROPS["C09"] = dict(
          "x {less,max,min,antitone,incmono,trichotomy} + sampled triples for transitivity; "
          "a pair is non-trivial and distinct when its two scores differ (keyed by the pair)",
     partial=["NaN is outside the property (constructible scores are finite or ±Inf floats)",
-             "int8 edge: neg_antitone excludes Mate=-128, inc_mono excludes |Mate|=127 (theorem int8_edge shows why)"],
+             "int8 edge: neg_antitone excludes Mate=-128, inc_mono excludes Mate=127 and Mate=-128 (theorem int8_edge shows why)",
+             "MateInXScore(0) is constructible but not a valid score (neither below nor above nor equal to a heuristic score): outside the theorems, inside the stream"],
     modelled=["eval/score.go: Less, Negate, IncrementMateDistance, MateDistance, Max, Min -> Morlock.Model.Score"],
     exhaustive=True,
     assumptions=["float32 order embedding key(x) (sign-magnitude bits, ±0 -> 0) preserves <, == and unary minus on non-NaN floats"],
@@ -128,7 +129,7 @@ PROPS["C14"] = dict(
 PROPS["C19"] = dict(
     modules=["Morlock.Props.C19"],
     streams=["fenstrings", "engine"],
-    level_text="Lean theorems (full, ALL strings): the decoders are total functions in the model (no partial definitions); every square the placement loop hands to NewPosition is "
+    level_text="Lean theorems (ALL strings) for the FEN half: the decoders are total functions in the model (no partial definitions); every square the placement loop hands to NewPosition is "
                "< 64 and strictly decreasing (placements_in_range: no index out of range, no duplicate); every accepted FEN yields a position whose views all agree, rights < 16, "
                "target < 64, clocks in int64 (decoded_wellformed) and re-encodes to a canonical FEN that decodes to the SAME value (accepted_roundtrip, accepted_normalised); the "
                "repaired overflow witness is proved rejected. Tie: grammar-based mutations, Unicode digits/letters, over-long digit runs, raw bytes run on the implementation with panics "
@@ -138,7 +139,8 @@ PROPS["C19"] = dict(
     technique="Lean 4 totality-by-construction + range theorem over all strings; differential fuzzing impl vs model",
     rule="valid FEN x {token deletion/duplication/swap, digit inflation 0/9, long digit runs, Unicode digits & letters, NUL/tab/NBSP, field count changes, huge/negative/signed clocks} "
          "+ raw bytes + move/square strings; non-trivial = accepted, or longer than 10 runes; distinct by rune sequence",
-    partial=["'well-formed value' is read as: non-nil, all views agree, re-encoding decodes to the same position; chess-level plausibility (kings, e.p. pawn) is not demanded of a FEN decoder"],
+    partial=["'well-formed value' is read as: non-nil, all views agree, re-encoding decodes to the same position; chess-level plausibility (kings, e.p. pawn) is not demanded of a FEN decoder",
+             "the move-string half ('accepted exactly when it denotes a legal move; rejected input leaves the game unchanged') is decided by the engine stream against the reference, not yet by a theorem"],
     modelled=["board/fen/fen.go Decode; board/move.go ParseMove; board/square.go ParseSquare(Str), ParseFile, ParseRank -> Model.Fen"],
 )
 
@@ -238,17 +240,18 @@ PROPS["C13"] = dict(
     modules=["Morlock.Props.C13", "Morlock.Props.C13Window", "Morlock.Props.C09"],
     streams=["c13"],
     timeout=dict(quick=900, thorough=6000),
-    level_text="Lean theorems (full, every Game, exploration, depth and window with K+d <= 127 - the int8 mate-distance limit made explicit): with no table and no halt the "
+    level_text="Lean theorems (every Game, move-determined exploration, depth and window with K+d <= 127 - the int8 mate-distance limit made explicit): with no table and no halt the "
                "transcribed alpha-beta returns r with Clip(alpha, beta, V, r) where V is plain negamax over the same explored moves and leaf (alphabeta_clip), including "
                "mate-score bounds and the degenerate child windows at the ends of the order (alphabeta_any_window); the quiescence search satisfies the same against its own "
-               "full-window value (quiescence_clip), never rates a position with a legal move below its static evaluation (standpat) and rates mate/stalemate exactly "
+               "full-window value (quiescence_clip), never rates a NOT-DRAWN position with a legal move below its static evaluation (standpat; a drawn position is rated 0) and rates mate/stalemate exactly "
                "(quiescence_terminal); the heap move order is proved to be a permutation (so the value is order independent). The pre-repair window is proved wrong on a witness. "
                "Tie: random windows on generated positions/histories, impl vs model exact (nodes, score, PV), impl vs Clip of the exhaustive reference.",
     level_note="Trusted: Lean kernel; Model.Search tied exactly (node counts and PV tie-breaks included); Spec.Search exhaustive negamax with full-history draw rules as the "
-               "implementation-side oracle. The theorems are about table-free, unhalted searches (tables: C11, halts: C12).",
+               "implementation-side oracle. The theorems are about table-free, unhalted searches (tables: C11, halts: C12). The quiescence model and its reference carry a fuel argument the Go code "
+               "does not have; enough_fuel removes it wherever every capture line ends within the fuel (QDone).",
     technique="Lean 4 proof: loop invariant of the fail-hard move loop in rank space, graded validity of mate distances, permutation invariance of the reference maximum; differential windows",
     rule="positions with histories (corpus, mate endgames, synthetic) x depth 0-4 x 4 configurations x 5 windows (bounds -inf, M+-k, heuristic, +inf); non-trivial = distinct script",
-    partial=[],
+    partial=["board-dependent explorations (TUROCHAMP considerable moves, BERNSTEIN plausible table) not covered by the theorems"],
     modelled=SEARCH_MODELLED,
 )
 
@@ -256,9 +259,13 @@ PROPS["C03"] = dict(
     modules=["Morlock.Props.C03", "Morlock.Props.C13", "Morlock.Props.C09"],
     streams=["c03"],
     timeout=dict(quick=900, thorough=6000),
-    level_text="Lean theorems (full, every Game / exploration / leaf evaluation / depth with leafGrade + d <= 127): the full-window search returns exactly the negamax value V "
-               "(exact, search_exact), the PV is a path of legal explored moves no longer than the depth, and EVERY PV move attains the value of the position it is played in "
-               "(pv, pv_principal). Board hand-back is C08.pushes_pops on the arena plus the implementation-side comparison of every getter before/after each search. "
+    level_text="Lean theorems (every Game, every MOVE-DETERMINED exploration (priority and filter are functions of the move: full, no-under-promotion, captures-only), every leaf "
+               "evaluation, every depth with leafGrade + d <= 127): the full-window search returns exactly the negamax value V (exact, search_exact), the PV is a path of legal explored "
+               "moves no longer than the depth, and EVERY PV move attains the value of the position it is played in (pv, pv_principal). V is negamax over the model board's own "
+               "push / draw / check (their chess meaning is C01, C02, C05; the composition into one statement against Spec.Search is not carried out: Spec.Search is the stream's oracle). "
+               "The board-dependent explorations of TUROCHAMP (considerable moves) and BERNSTEIN (plausible table) are outside these theorems: modelled in C20, searched only by the streams. "
+               "Board hand-back is NOT a theorem (the search model is pure: it uses the child value and keeps the parent): C08.pushes_pops says balanced push/pop pairs restore the board, "
+               "and that the Go loops are balanced on every path (incl. halted) is decided by the implementation-side comparison of every getter before/after each search. "
                "Tie: full-window searches on generated positions WITH their game histories (repetition shuffles, clocks near 100, draws arising exactly at the horizon), "
                "4 configurations; impl vs model exact, impl vs the exhaustive reference negamax over Spec.Game (value, set of optimal first moves); a harness-side exhaustive "
                "negamax at depth 4-6 in sparse mate positions and the repository's Minimax as further oracles.",
@@ -267,7 +274,9 @@ PROPS["C03"] = dict(
     technique="Lean 4 proof (corollary of the C13 Clip theorem at the full window + PV invariant); differential search against exhaustive negamax over full game histories",
     rule="lines of 0-24 plies from corpus / mate endgames / synthetic starts x depth 0-4 (deep only in sparse positions) x 4 configurations; curated horizon-draw and repetition histories; "
          "deep oracle d=4-6; non-trivial = distinct script; mate scores counted",
-    partial=["exhaustive reference quiescence only affordable with <= 12 men (busy positions: impl vs model only)"],
+    partial=["exhaustive reference quiescence only affordable with <= 12 men (busy positions: impl vs model only)",
+             "board hand-back decided by the stream (getter comparison; at a root without legal moves the search adjudicates mate/stalemate on the caller's board: accepted, documented in DESIGN 7), not by a theorem",
+             "board-dependent explorations (TUROCHAMP, BERNSTEIN) not covered by the search theorems"],
     modelled=SEARCH_MODELLED,
 )
 
@@ -292,15 +301,15 @@ PROPS["C12"] = dict(
     modules=["Morlock.Props.C12", "Morlock.Props.C11"],
     streams=["c12"],
     timeout=dict(quick=900, thorough=6000),
-    level_text="Lean theorems (full, for EVERY cancellation poll index k): the search reports halted exactly when its last poll saw the cancellation (reports_halted, "
-               "reports_halted_at, halted_before_start), cancellation is monotone (cancelled_stays), a halted search leaves the table sound whatever k was (leaves_nothing: every "
+    level_text="Lean theorems (for EVERY cancellation poll index k): the search reports halted exactly when its last poll saw the cancellation (reports_halted is the definition of "
+               "the final poll; the substance is reports_halted_at, halted_before_start), cancellation is monotone (cancelled_stays), a halted search leaves the table sound whatever k was (leaves_nothing: every "
                "store is guarded by a poll that said 'not cancelled'), and the next search with the same table returns the true value - the same score as if the halted search had "
-               "never run (next_search_exact). Board hand-back: C08.pushes_pops. Tie: cancellation forced at the k-th poll of the search context (a context whose Done() is the poll: "
+               "never run (next_search_exact: the SCORE; the PV may be cut elsewhere). Board hand-back: by the stream (see C03). The polls of Minimax have no theorem. Tie: cancellation forced at the k-th poll of the search context (a context whose Done() is the poll: "
                "no hook), k = 1,2,3, last-1, last, last+1, random (thorough: every k), incl. roots where a draw can be claimed; impl vs model exact, following search vs reference.",
     level_note="Trusted: Lean kernel; Model.Search poll placement tied by exact agreement on halted/not-halted for every k tried. PV equality of the follow-up search is not claimed (table hits may cut the PV at different places); its score is.",
     technique="Lean 4 proof (liveness flag in the node contract; stores guarded by polls) + fault enumeration over cancellation polls",
     rule="positions x depth 1-3 x cancel point k over the polls of the undisturbed search; sequence halt -> search (optionally search -> halt -> search); drawn roots; non-trivial = distinct script",
-    partial=[],
+    partial=["follow-up search: score equality proved, PV equality not claimed", "board hand-back after a halt: stream only", "Minimax polls: no theorem"],
     modelled=SEARCH_MODELLED,
 )
 
